@@ -301,3 +301,113 @@ def h_expiry_boundary(d: int, valid: bool, tz_form: int) -> bool:
     if got != want:
         return "permission %s at expiry%+d microseconds" % ("granted" if got else "refused", d)
     return True
+
+
+# ---- announced certificates through the real StorageFarmBroker._make_storage_server ------------------------------
+
+def _load_sc():
+    from allmydata import storage_client as sc
+    return sc
+
+
+_KINDS = 6      # 0 well-formed, 1 no "signature", 2 signature not base32, 3 no "certificate", 4 entry is not a dict, 5 signature not a string
+
+
+def _entry(i, kind):
+    from allmydata.util import base32
+    good = {"certificate": "cert-body-%d" % i, "signature": base32.b2a(b"sig-%d" % i).decode("ascii")}
+    if kind == 0:
+        return good
+    if kind == 1:
+        return {"certificate": good["certificate"]}
+    if kind == 2:
+        return {"certificate": good["certificate"], "signature": "s1g!"}
+    if kind == 3:
+        return {"signature": good["signature"]}
+    if kind == 4:
+        return "not-a-certificate"
+    return {"certificate": good["certificate"], "signature": 12345}
+
+
+_ENTRIES = [[_entry(i, k) for k in range(_KINDS)] for i in range(2)]       # concrete, built at import time
+
+
+def _cheap_precondition(cond, *args, **kwargs):
+    # pyutil's precondition() formats its arguments into the AssertionError message (realising a bytes proxy byte by byte:
+    # ~20000 solver calls per failure); same control flow, no message
+    if not cond:
+        raise AssertionError("precondition")
+
+
+from allmydata.util import base32 as _base32_mod      # noqa: E402
+_base32_mod.precondition = _cheap_precondition
+NOTES.append("announced_certs: allmydata.util.base32.precondition raises AssertionError without formatting its arguments; twisted getPlugins returns "
+             "no plugins; eliot @log_call decorator of _make_storage_server dropped; grid_manager.current_datetime_with_zone returns a symbolic integer")
+# eliot's @log_call reads the wall clock (forks CrossHair's symbolic time.time): decorator dropped
+_mss = hlib.strip_logs(_load_sc().StorageFarmBroker._make_storage_server, drop_decorators=("log_call",))
+hlib.encoded(gm.SignedCertificate.load, _load_sc().NativeStorageServer.upload_permitted)
+
+
+def h_announced_certs(k0: int, k1: int, s0: bool, s1: bool, m0: bool, m1: bool, e0: int, e1: int, now: int) -> bool:
+    """
+    pre: 0 <= k0 < _KINDS and 0 <= k1 < _KINDS
+    pre: B.get("kinds") is None or (k0 in B["kinds"] and k1 in B["kinds"])
+    post: _ == True
+    """
+    sc = _load_sc()
+    kinds = [k0, k1]
+    key = NS(name="gm-key-0")
+    w = _World(2, [key], [[s0, False], [s1, False]], [m0, m1], [e0, e1])
+
+    def load(file_like):
+        # SignedCertificate.load's json.load: the real jsonbytes on the (concrete) text, tracing off
+        from crosshair import deep_realize, NoTracing
+        from allmydata.util import jsonbytes
+        text = deep_realize(file_like.read())
+        with NoTracing():
+            return jsonbytes.loads(text)
+    w.load = load
+    b = sc.StorageFarmBroker.__new__(sc.StorageFarmBroker)
+    b.storage_client_config = sc.StorageClientConfig(preferred_peers=(), storage_plugins={}, grid_manager_keys=[key])
+    b.node_config = NS(get_config=lambda section, option, default=None, boolean=False: default)
+    b._tub_maker = None
+    b._default_connection_handlers = {"tcp": "tcp"}
+    b._tor_provider = None
+    b._got_connection = lambda: None
+    ann = {"anonymous-storage-FURL": "pb://%s@nowhere/fake" % ("a" * 32), "permutation-seed-base32": "aaaaaaaaaaaaaaaa", "nickname": "n",
+           "grid-manager-certificates": [_ENTRIES[0][k0], _ENTRIES[1][k1]]}
+    saved = _install(w)
+    saved2 = (sc.getPlugins, gm.current_datetime_with_zone)
+    sc.getPlugins = lambda *a, **kw: iter(())       # twisted plugin discovery (file system scan); no storage plugins configured
+    gm.current_datetime_with_zone = lambda: now
+    server = None
+    permitted = None
+    try:
+        try:
+            server = _mss(b, b"v0-thisserver", {"ann": ann})
+            permitted = server.upload_permitted()
+        except Exception:
+            server = None
+    finally:
+        _restore(saved)
+        sc.getPlugins, gm.current_datetime_with_zone = saved2
+    wellformed = [kinds[i] == 0 for i in range(2)]
+    valid = [s0, s1]
+    subject = [m0, m1]
+    expires = [e0, e1]
+    want = False
+    for i in range(2):
+        if wellformed[i] and valid[i] and subject[i] and expires[i] > now:
+            want = True
+    if server is None:
+        # refusing the whole announcement is acceptable only if something in it is malformed
+        if wellformed[0] and wellformed[1]:
+            return "a server announcing only well-formed certificates was rejected"
+        return True
+    if permitted is not True and permitted is not False:
+        return "upload_permitted() did not return a bool"
+    if permitted and not want:
+        return "grid-manager keys are configured and the server has no valid, unexpired certificate for its key, yet uploads to it are permitted"
+    if want and not permitted:
+        return "server with a valid certificate refused"
+    return True
